@@ -188,7 +188,7 @@ def run(ctx):
         fname = fnames[i % len(fnames)]
         sigs = scalar.FUNCS[fname] + (scalar.LIST_FUNCS.get(fname, []) if i % 3 == 0 else [])
         args, ret = sigs[(i // len(fnames)) % len(sigs)]
-        d = rng.randint(0, 2)
+        d = rng.randint(0, 3)
         callt = ("call", fname, tuple(scalar.gen_arg(rng, p, fname, j, a, d)
                                       for j, a in enumerate(args)))
         ctxform = i % 4
